@@ -54,6 +54,37 @@ CHILD = textwrap.dedent('''
         tick('open'); return F(builtins.open(name, mode, *a, **k))
     S.open = fake_open
     S.os = OS()
+    import shutil as _sh
+    class SH:
+        # (only if the module uses shutil at all) moving a file: a rename within one file system, otherwise a copy followed
+        # by the removal of the original, with a possible interruption before every chunk
+        def __getattr__(self, n):
+            return getattr(_sh, n)
+        def _copy(self, src, dst):
+            tick('open'); out = builtins.open(dst, 'wb')
+            with builtins.open(src, 'rb') as inp:
+                while True:
+                    b = inp.read(64)
+                    if not b:
+                        break
+                    tick('write'); out.write(b); out.flush()
+            tick('close'); out.close()
+            return dst
+        def move(self, src, dst):
+            if os.path.isdir(dst):
+                dst = os.path.join(dst, os.path.basename(src))
+            if os.stat(os.path.dirname(os.path.abspath(dst))).st_dev == os.stat(src).st_dev:
+                tick('rename'); os.rename(src, dst); return dst
+            self._copy(src, dst)
+            tick('unlink'); os.unlink(src)
+            return dst
+        def copyfile(self, src, dst, **k):
+            return self._copy(src, dst)
+        def copy(self, src, dst, **k):
+            return self._copy(src, os.path.join(dst, os.path.basename(src)) if os.path.isdir(dst) else dst)
+        copy2 = copy
+    if hasattr(S, 'shutil'):
+        S.shutil = SH()
     pkg = %(pkg)r
     count = [0]
     down_at = fail_at[1] if isinstance(fail_at, (list, tuple)) and fail_at[0] == 'down' else None
@@ -141,10 +172,34 @@ CHILD = textwrap.dedent('''
 ''')
 
 
+def other_fs_tmp(d):
+    try:
+        base = '/dev/shm'
+        probe = d
+        while not os.path.exists(probe):
+            probe = os.path.dirname(probe)
+        if os.path.isdir(base) and os.access(base, os.W_OK) and os.stat(base).st_dev != os.stat(probe).st_dev:
+            t = os.path.join(base, 'verif_c08_%s' % digest(os.path.abspath(d)))
+            os.makedirs(t, exist_ok=True)
+            return t
+    except OSError:
+        pass
+    return None
+
+
 def child(pkg, d, kill_at=None, fail_at=None):
     code = CHILD % {'repo': REPO, 'kill_at': kill_at, 'fail_at': fail_at, 'pkg': pkg, 'dir': d}
-    p = subprocess.run([PY, '-c', code], stdout=subprocess.PIPE, stderr=subprocess.PIPE, text=True, timeout=120,
-                       env=dict(os.environ, PYTHONHASHSEED='0', PYTHONPATH=REPO))
+    env = dict(os.environ, PYTHONHASHSEED='0', PYTHONPATH=REPO)
+    # the directory for temporary files lies on another file system than the checkpoint (a legitimate set-up: nothing the
+    # checkpoint does may depend on where temporary files go)
+    other = other_fs_tmp(d)
+    if other:
+        env['TMPDIR'] = other
+    try:
+        p = subprocess.run([PY, '-c', code], stdout=subprocess.PIPE, stderr=subprocess.PIPE, text=True, timeout=120, env=env)
+    finally:
+        if other:
+            shutil.rmtree(other, ignore_errors=True)
     out = None
     for line in p.stdout.splitlines():
         if line.startswith('{'):
